@@ -79,6 +79,27 @@ Fixpoint zero_of (t : ty) : val :=
   end.
 
 (* packet_buffer.go: read, into a fresh zero value.  Returns the value and the unread rest. *)
+(* fewer than k octets left?  (= len b <? k, lemma short_len; walks at most k cells instead of measuring all of b) *)
+Fixpoint short (k : nat) (b : bytes) : bool :=
+  match k, b with
+  | O, _ => false
+  | S _, [] => true
+  | S k', _ :: b' => short k' b'
+  end.
+
+Lemma short_len k b : short k b = (len b <? N.of_nat k).
+Proof.
+  unfold len. revert b. induction k as [|k IH]; intros [|x b]; cbn [short List.length].
+  - reflexivity.
+  - symmetry. apply N.ltb_ge. apply N.le_0_l.
+  - symmetry. apply N.ltb_lt. rewrite Nat2N.inj_succ. apply N.lt_0_succ.
+  - rewrite IH, !Nat2N.inj_succ.
+    destruct (N.ltb_spec (N.of_nat (List.length b)) (N.of_nat k)) as [H|H];
+      destruct (N.ltb_spec (N.succ (N.of_nat (List.length b))) (N.succ (N.of_nat k))) as [H'|H']; try reflexivity.
+    + apply N.succ_le_mono in H'. exfalso. apply (N.lt_irrefl (N.of_nat k)). eapply N.le_lt_trans; eauto.
+    + apply N.succ_lt_mono in H'. exfalso. apply (N.lt_irrefl (N.of_nat k)). eapply N.le_lt_trans; eauto.
+Qed.
+
 Fixpoint read (t : ty) (b : bytes) {struct t} : res (val * bytes) :=
   match t with
   | TSlice e =>
@@ -118,7 +139,7 @@ Fixpoint read (t : ty) (b : bytes) {struct t} : res (val * bytes) :=
       Ok (VStruct vs, rest)
   | _ =>
       match scalar_size t with
-      | Some k => if len b <? N.of_nat k then Err else Ok (VU (unbe (firstn k b)), skipn k b)
+      | Some k => if short k b then Err else Ok (VU (unbe (firstn k b)), skipn k b)
       | None => Err
       end
   end.
